@@ -489,6 +489,23 @@ def mechanism_key(case, target):
             i += 1
     if node[0] == "lit":
         parts.append("literal")
+    return collapse_key(case, parts)
+
+
+BLOCKISH = ("block", "block/super()", "self.block()")
+
+
+def collapse_key(case, parts):
+    """Families with one root cause get one key, so that a sibling filter /
+    argument / block flavour is not reported as a new mechanism:
+    * the minimal template still needs a block nested in an {% autoescape %}
+      block (static or runtime flag, in place, via self.b() or super());
+    * the leaking datum still passes through a {% filter %} block (body or
+      arguments): visit_FilterBlock writes the filter result unescaped."""
+    if case["mode"] == "runtime" and case.get("layout") == "file" and any(p in BLOCKISH for p in parts):
+        return "autoescape-block/block-not-escaped"
+    if any(p.startswith("filter-block:") for p in parts):
+        return "filter-block:result-not-escaped"
     return "/".join(parts) or "output"
 
 
